@@ -384,7 +384,7 @@ def _open_prefixes(stack: list) -> list:
 
 
 def run_sharded(make_harness: Callable[[], Callable], procs: int = 16, want: int = 64, timeout_s: float = 600.0,
-                chunk_paths: int = 40, **kw) -> Result:
+                chunk_paths: int = 40, stall_s: float = 150.0, **kw) -> Result:
     """Explore the decision tree on a process pool. A task = (decision prefix, path budget); a task that exhausts
     its budget hands back the roots of its unexplored subtrees, which are queued as new tasks."""
     if procs <= 1:
@@ -398,17 +398,20 @@ def run_sharded(make_harness: Callable[[], Callable], procs: int = 16, want: int
     queue: list[list] = [[]]
     inflight = []
     timed_out = False
-    with mp.get_context("fork").Pool(procs) as pool:
+    restarts = 0
+    pool = mp.get_context("fork").Pool(procs)
+    last_progress = time.time()
+    try:
         while queue or inflight:
             while queue and len(inflight) < procs * 2:
                 pfx = queue.pop()  # LIFO: deep prefixes first keeps the queue small
                 budget = chunk_paths if (len(queue) + len(inflight)) < procs * 3 else chunk_paths * 8
-                inflight.append(pool.apply_async(_run_prefix, (pfx, budget, kw)))
+                inflight.append((pool.apply_async(_run_prefix, (pfx, budget, kw)), pfx))
             still = []
             progressed = False
-            for j in inflight:
+            for j, pfx in inflight:
                 if not j.ready():
-                    still.append(j)
+                    still.append((j, pfx))
                     continue
                 progressed = True
                 r = j.get()
@@ -427,14 +430,30 @@ def run_sharded(make_harness: Callable[[], Callable], procs: int = 16, want: int
                         out.unknown_tasks = getattr(out, "unknown_tasks", 0) + 1
             inflight = still
             if out.cex is not None or out.error:
-                pool.terminate()
                 break
             if time.time() - t0 > timeout_s:
                 timed_out = True
-                pool.terminate()
                 break
-            if not progressed:
+            if progressed:
+                last_progress = time.time()
+            else:
+                # A task can be lost for good (multiprocessing.Pool does not resubmit the task of a worker that died, and a
+                # worker can block on a lock another - killed - process still holds). Exploration tasks are idempotent
+                # (a prefix of decisions), so after a long silence the pool is rebuilt and the open prefixes are resubmitted.
+                if inflight and time.time() - last_progress > stall_s and restarts < 3:
+                    restarts += 1
+                    pool.terminate()
+                    pool.join()
+                    pool = mp.get_context("fork").Pool(procs)
+                    queue.extend(pfx for _, pfx in inflight)
+                    inflight = []
+                    last_progress = time.time()
+                    continue
                 time.sleep(0.01)
+    finally:
+        pool.terminate()
+        pool.join()
+    out.restarts = restarts
     if out.cex is not None:
         out.status = "CEX"
     elif out.error:
